@@ -71,12 +71,23 @@ def plan(tier, seed):
         for part in ("sampler", "compound", "allele"):
             jobs.append(("orch", part, name, 2000))
     jobs.append(("orch", "fit", "-", 100))
+    for part in (("asm", 0), ("asm", 1), ("hand", 0), ("hand", 1)):
+        jobs.append(("cliflow", seed, part, 10 ** 9))
     jobs.sort(key=lambda j: -j[-1])
     return jobs
 
 
 def run_job(job):
-    return {"allele": job_allele, "swap": job_swap, "orch": job_orch}[job[0]](job)
+    return {"allele": job_allele, "swap": job_swap, "orch": job_orch, "cliflow": job_cliflow}[job[0]](job)
+
+
+def job_cliflow(job):
+    """`mchap call-pedigree` command line with pedigree / gamete files -> PedigreeCallingMCMC arrays (vmc/cliflow.py)"""
+    from .. import cliflow
+
+    r = Result()
+    cliflow.pedigree_flow(r, {"kind": "job", "job": job}, job[1], tuple(job[2]))
+    return r
 
 
 def job_orch(job):
